@@ -6,12 +6,16 @@
 (define-fun w32be ((a (Array Int Int)) (o Int)) Int (+ (* 16777216 (select a o)) (* 65536 (select a (+ o 1))) (* 256 (select a (+ o 2))) (select a (+ o 3))))
 (define-fun blk64 ((a (Array Int Int)) (o Int)) Blk (pack16 (w32be a (+ o 0)) (w32be a (+ o 4)) (w32be a (+ o 8)) (w32be a (+ o 12)) (w32be a (+ o 16)) (w32be a (+ o 20)) (w32be a (+ o 24)) (w32be a (+ o 28)) (w32be a (+ o 32)) (w32be a (+ o 36)) (w32be a (+ o 40)) (w32be a (+ o 44)) (w32be a (+ o 48)) (w32be a (+ o 52)) (w32be a (+ o 56)) (w32be a (+ o 60))))
 (define-fun st8 ((h (Array Int Int))) Blk (pack8 (select h 0) (select h 1) (select h 2) (select h 3) (select h 4) (select h 5) (select h 6) (select h 7)))
-(define-fun SM3IV () (Array Int Int) (store (store (store (store (store (store (store (store ((as const (Array Int Int)) 0) 0 1937774191) 1 1226093241) 2 388252375) 3 3666478592) 4 2842636476) 5 372324522) 6 3817729613) 7 2969243214))
+(declare-fun SM3IV () (Array Int Int))
+(assert (and (= (select SM3IV 0) 1937774191) (= (select SM3IV 1) 1226093241) (= (select SM3IV 2) 388252375) (= (select SM3IV 3) 3666478592) (= (select SM3IV 4) 2842636476) (= (select SM3IV 5) 372324522) (= (select SM3IV 6) 3817729613) (= (select SM3IV 7) 2969243214)))
 ; SM3F h0 a o n : chaining value after n 64-byte blocks of a[o..] starting from h0
 (define-fun-rec SM3F ((h0 (Array Int Int)) (a (Array Int Int)) (o Int) (n Int)) (Array Int Int)
   (ite (<= n 0) h0 (SM3CF (st8 (SM3F h0 a o (- n 1))) (blk64 a (+ o (* 64 (- n 1)))))))
 ; padding of a message of l bytes: 0x80, zeros, 64-bit big-endian bit length; SM3T l = number of 0x80/zero bytes
 (define-fun SM3T ((l Int)) Int (ite (< (mod l 64) 56) (- 56 (mod l 64)) (- 120 (mod l 64))))
-(define-fun pow256 ((k Int)) Int (ite (= k 0) 1 (ite (= k 1) 256 (ite (= k 2) 65536 (ite (= k 3) 16777216 (ite (= k 4) 4294967296 (ite (= k 5) 1099511627776 (ite (= k 6) 281474976710656 (ite (= k 7) 72057594037927936 0)))))))))
 (declare-fun SM3PADARR (Int) (Array Int Int))
-(assert (forall ((l Int) (j Int)) (! (= (select (SM3PADARR l) j) (ite (= j 0) 128 (ite (< j (SM3T l)) 0 (mod (div (* 8 l) (pow256 (- (+ (SM3T l) 7) j))) 256)))) :pattern ((select (SM3PADARR l) j)))))
+(define-fun be64sum ((a (Array Int Int)) (o Int)) Int (+ (* 72057594037927936 (select a o)) (* 281474976710656 (select a (+ o 1))) (* 1099511627776 (select a (+ o 2))) (* 4294967296 (select a (+ o 3))) (* 16777216 (select a (+ o 4))) (* 65536 (select a (+ o 5))) (* 256 (select a (+ o 6))) (select a (+ o 7))))
+(assert (forall ((l Int)) (! (= (select (SM3PADARR l) 0) 128) :pattern ((SM3PADARR l)))))
+(assert (forall ((l Int) (j Int)) (! (=> (and (< 0 j) (< j (SM3T l))) (= (select (SM3PADARR l) j) 0)) :pattern ((select (SM3PADARR l) j)))))
+(assert (forall ((l Int) (j Int)) (! (and (<= 0 (select (SM3PADARR l) j)) (<= (select (SM3PADARR l) j) 255)) :pattern ((select (SM3PADARR l) j)))))
+(assert (forall ((l Int)) (! (=> (and (<= 0 l) (< l 2305843009213693952)) (= (be64sum (SM3PADARR l) (SM3T l)) (* 8 l))) :pattern ((SM3PADARR l)))))
